@@ -22,6 +22,11 @@ Clauses (one obligation each)
         spaces and methods (io/log, io/lin, max/log, io/lin, max/lin, io/log); each result is compared with the same
         call given a freshly built prior.  Compared: node times, metadata mn/vr, posterior grid (inside_outside),
         within floating-point tolerance (below).
+    arguments-not-modified
+        frame condition behind "called again with the same arguments": population_size passed as a float ndarray, as a
+        dict of ndarrays and as a PopulationSizeHistory object is byte-identical after the call, and the repeat clause
+        is evaluated with that SAME object passed again (quick: 2 inputs x 3 object forms x {inside_outside,
+        maximization}; thorough: 4 inputs).
     same-outcome
         all runs being compared succeed, or all raise the same exception type.
 
@@ -379,6 +384,47 @@ def run(req, rep):
                      else f"{n_repeats} identical fingerprints", expected="byte-identical fingerprints")
 
         lap("in-process-repeats")
+        # ---- repeated calls that share mutable option OBJECTS (arrays, dicts of arrays, history objects)
+        from tsdate.demography import PopulationSizeHistory
+
+        def option_objects(ne):
+            yield "ne-float-ndarray", lambda: np.array([float(ne)])
+            yield "ne-dict-of-ndarrays", lambda: {"population_size": np.array([float(ne), 2.0 * ne]),
+                                                  "time_breaks": np.array([float(ne) / 4])}
+            yield "ne-history-object", lambda: PopulationSizeHistory(np.array([float(ne), 2.0 * ne]),
+                                                                     np.array([float(ne) / 4]))
+
+        def snapshot(o):
+            if isinstance(o, np.ndarray):
+                return o.tobytes()
+            if isinstance(o, dict):
+                return {k: snapshot(v) for k, v in o.items()}
+            if isinstance(o, PopulationSizeHistory):
+                return {k: snapshot(getattr(o, k)) for k in vars(o) if isinstance(getattr(o, k), np.ndarray)}
+            return repr(o)
+
+        shared_inputs = [it for it in ins if it["kind"] != "historical"][: (4 if thorough else 2)]
+        for item in shared_inputs:
+            for olab, make in option_objects(item["ne"]):
+                for lab, method in (("io/log", "inside_outside"), ("max/log", "maximization")):
+                    obj = make()
+                    before = snapshot(obj)
+                    kw = {"eps": 1e-6, "min_branch_length": 1e-6, "population_size": obj}
+                    runs = [run_job(item["ts"], method, item["mu"], kw) for _ in range(max(n_repeats, 2))]
+                    key = f"{item['name']}|{lab}|{olab}"
+                    desc = {"input": item["name"], "config": lab, "option_object": olab, "method": method,
+                            "mutation_rate": item["mu"], "ts": item["ts_json"]}
+                    d = sorted({f for r in runs[1:] for f in diff_fields(runs[0], r)})
+                    rep.case("repeat-call-bit-identical-in-process", not d, key=key + "|shared-object", input=desc,
+                             observed={"differing_fields": d, "nodes_time": [decode_times(r) for r in runs]} if d
+                             else "identical fingerprints", expected="byte-identical fingerprints when the SAME option "
+                             "object is passed again")
+                    rep.case("arguments-not-modified", snapshot(obj) == before, key=key + "|frame", input=desc,
+                             observed="option object changed by the call" if snapshot(obj) != before else "unchanged",
+                             expected="date() leaves the caller's option objects byte-identical (frame condition "
+                                      "behind 'repeated calls with the same arguments')")
+
+        lap("shared-option-objects")
         # ---- num_threads (in process)
         threaded = [it for it in ins if it["kind"] != "historical"][:n_threads_inputs]
         for idx, item in enumerate(threaded):
